@@ -164,11 +164,48 @@ def bank():
     except Exception:
         pass
     raw.update(woffs)
+    raw.update(damaged_payloads({'otf': otf, **woffs}, 'font'))
+    raw.update(damaged_payloads({'png': png, 'png_rgba': raw['png_rgba'], 'jpeg': jpeg, 'gif': raw['gif'],
+                                 'webp': raw['webp'], 'svg': SVG_OK}, 'image', light=True))
     contents = {}
     for cid, (name, data) in enumerate(raw.items(), 1):
         contents[name] = Content(cid, name, data)
     _oracles(contents)
     return contents
+
+
+DAMAGED = {'font': [], 'image': []}     # names of the damaged payloads, filled by bank()
+
+
+def damaged_payloads(originals, family, light=False):
+    """Damaged-but-plausible variants of real files: truncated at many offsets (inside the header, right after it, in
+    the body, in the last bytes), one byte inverted at several positions, wrong / swapped magic numbers.  Deterministic
+    (no random choice): the same payloads in every run."""
+    out = {}
+    magics = {'otf': b'OTTO', 'woff': b'wOFF', 'woff2': b'wOF2'}
+    for name, data in originals.items():
+        size = len(data)
+        cuts = [3, 4, 12, 20, 43, 44, 47, 48, 60, 100, size // 4, size // 2, 3 * size // 4, size - 64, size - 16,
+                size - 4, size - 1]
+        flips = [5, 13, 30, 50, size // 3, size // 2, 2 * size // 3, size - 10]
+        if light:
+            cuts, flips = cuts[1::3] + [size - 1], flips[::3]
+        for cut in sorted({c for c in cuts if 0 < c < size}):
+            out[f'{name}_cut@{cut}'] = data[:cut]
+        for pos in sorted({f for f in flips if 0 <= f < size}):
+            out[f'{name}_flip@{pos}'] = data[:pos] + bytes([data[pos] ^ 0xFF]) + data[pos + 1:]
+        if name in magics:
+            for other, magic in magics.items():
+                if other != name:
+                    out[f'{name}_magic_{other}'] = magic + data[4:]
+            out[f'{name}_magic_none'] = b'wOFX' + data[4:]
+    DAMAGED[family] = sorted(set(DAMAGED[family]) | set(out))
+    return out
+
+
+def damaged_names(family, predicate=None):
+    contents = bank()
+    return [n for n in DAMAGED[family] if predicate is None or predicate(contents[n])]
 
 
 def _oracles(contents):
